@@ -391,8 +391,76 @@ def _diff_batch(pairs):
     return out, len(pairs)
 
 
+MUTATIONS = ["add", "iadd", "addN", "remove", "isub"]
+
+
+def reuse_case(mask, k, how):
+    """An IsomorphicGraph that has been compared once, is then changed in place (one edge added or removed, through each mutating call) and
+    compared again: it must answer as a freshly built one (no digest may survive the change)."""
+    edges = u1_edges(3)
+    nodes = [BNode("b%d" % i) for i in range(3)]
+    g = build("u1", 3, mask)
+    ig = to_isomorphic(g)
+    first = (ig == to_isomorphic(build("u1", 3, mask, naming=1)))
+    h0 = ig.internal_hash()
+    i, j = edges[k]
+    t = (nodes[i], P, nodes[j])
+    removing = how in ("remove", "isub")
+    if removing != bool(mask >> k & 1):
+        return None, False  # (adding an edge that is there / removing one that is not: nothing changes)
+    new_mask = mask & ~(1 << k) if removing else mask | (1 << k)
+    if how == "add":
+        ig.add(t)
+    elif how == "iadd":
+        h = Graph(bind_namespaces="none")
+        h.add(t)
+        ig += h
+    elif how == "addN":
+        ig.addN([t + (ig,)])
+    elif how == "remove":
+        ig.remove(t)
+    elif how == "isub":
+        h = Graph(bind_namespaces="none")
+        h.add(t)
+        ig -= h
+    want = build("u1", 3, new_mask, naming=2)
+    fresh = to_isomorphic(want)
+    problems = []
+    if not first:
+        problems.append("first-comparison-wrong")
+    if rows(ig) != rows(build("u1", 3, new_mask)):
+        return ("isomorphic-graph-reuse|%s|content-wrong" % how, {}), True
+    if not (ig == fresh) or ig != fresh:
+        problems.append("equal-to-fresh-graph-of-new-content-is-false")
+    if ig.internal_hash() != fresh.internal_hash():
+        problems.append("digest-differs-from-fresh-graph")
+    old = to_isomorphic(build("u1", 3, mask, naming=1))
+    if (ig == old) != iso(rows(want), rows(build("u1", 3, mask))):
+        problems.append("comparison-with-old-content-wrong")
+    if problems:
+        return ("isomorphic-graph-reuse|%s|%s" % (how, problems[0]), {"problems": problems, "mask": mask, "edge": k, "digest_before": str(h0)}), True
+    return None, True
+
+
+def _reuse_batch(items):
+    viols = []
+    n = 0
+    for mask, k, how in items:
+        v, counted = reuse_case(mask, k, how)
+        if counted:
+            n += 1
+        if v:
+            viols.append({"sig": v[0], "case": {"reuse": [mask, k, how]}, "detail": v[1]})
+    return viols, n
+
+
 def run(ctx):
     thorough = ctx.tier == "thorough"
+    items = [(m, k, how) for m in range(512) for k in range(9) for how in MUTATIONS]
+    for viols, n in R.pmap(_reuse_batch, R.shards(items, ctx.jobs * 4), ctx.jobs):
+        ctx.extend(viols)
+        ctx.add("evaluations", n)
+        ctx.add("isomorphic_graph_reuse_cases", n)
     classes3 = check_universe(ctx, "u1", 3)
     check_universe(ctx, "u1", 4)
     check_universe(ctx, "u2", 5)
@@ -478,6 +546,10 @@ def replay(ctx, case):
         gb = build_named(named[b][0], named[b][1], list(range(named[b][0])))
         if isomorphic(ga, gb):
             viols.append({"sig": "isomorphic|true-for-non-isomorphic-graphs", "case": case, "detail": {}})
+    elif "reuse" in case:
+        v, _ = reuse_case(*case["reuse"])
+        if v:
+            viols.append({"sig": v[0], "case": case, "detail": v[1]})
     elif "decorated" in case:
         for row in _decor_batch([tuple(case["decorated"])]):
             mask, di, code, d, d2, ch, canon_same, sk_ok = row
